@@ -375,7 +375,7 @@ def plan_edges(gen, state_key, init_pred, call_of, follow=lambda t: True):
         if n in pathcache:
             return pathcache[n]
         p = parent[n]
-        r = [] if p is None else path(p[0]) + [call_of(p[1])]
+        r = [] if p is None else path(p[0]) + [dict(call_of(p[1]), quiet=1)]
         pathcache[n] = r
         return r
     scripts = []
